@@ -69,6 +69,7 @@ type cblock struct {
 	tids   []int // block.Transactions as tx ids (executed order)
 	eids   []int
 	height uint64
+	pv     int64
 }
 
 type chainRun struct {
@@ -80,6 +81,7 @@ type chainRun struct {
 	txByH  map[common.Hash]int
 	blocks []*cblock
 	seq    int
+	results map[string]int
 }
 
 func copyBlock(b *types.Block) *types.Block {
@@ -131,7 +133,15 @@ func (c *chainRun) tags(txs []*types.Transaction) string {
 }
 
 func (c *chainRun) build(parent *cblock, qn uint64, ids []int) *cblock {
+	return c.buildPV(parent, qn, 0, ids)
+}
+
+// buildPV: pv == 0 picks a fresh prove value; otherwise the given one (ties in the fork choice)
+func (c *chainRun) buildPV(parent *cblock, qn uint64, pv int64, ids []int) *cblock {
 	c.seq++
+	if pv == 0 {
+		pv = int64(1000 + c.seq)
+	}
 	var txs []*types.Transaction
 	for _, id := range ids {
 		cp := *c.w.txs[id]
@@ -139,9 +149,9 @@ func (c *chainRun) build(parent *cblock, qn uint64, ids []int) *cblock {
 	}
 	ph := *parent.block.Header
 	h := parent.height + 1
-	blk := core.VerifC05BuildBlock(c.sdb, &ph, h, qn, big.NewInt(int64(c.seq)), chCastor, chGroup,
+	blk := core.VerifC05BuildBlock(c.sdb, &ph, h, qn, big.NewInt(pv), chCastor, chGroup,
 		chTime.Add(time.Duration(h)*time.Second+time.Duration(c.seq)*time.Millisecond), txs)
-	b := &cblock{label: "b" + strconv.Itoa(c.seq), parent: parent, block: blk, height: h}
+	b := &cblock{label: "b" + strconv.Itoa(c.seq), parent: parent, block: blk, height: h, pv: pv}
 	for _, t := range blk.Transactions {
 		b.tids = append(b.tids, c.txByH[t.Hash])
 	}
@@ -182,42 +192,17 @@ func (c *chainRun) observe() {
 	}))
 }
 
+// deliver: AddBlockOnChain(copy of the block). The op line carries only what the block itself says (hash, parent
+// hash, height, total QN, prove value, transactions, evicted list); the model decides the fork choice and makes the
+// pool calls on its own; the answer is the chain's result code, followed by the observation of the real pool.
 func (c *chainRun) deliver(b *cblock) {
-	old := core.VerifC05Head().Hash
 	cp := copyBlock(b.block)
+	hd := b.block.Header
+	op := fmt.Sprintf("deliver %s %s %d %d %d %s - %s", hx.Hex(hd.Hash.Bytes()), hx.Hex(hd.PreHash.Bytes()), hd.Height, hd.TotalQN, b.pv,
+		idList(b.tids), idList(b.eids))
 	res := hx.Guard(func() string { return strconv.Itoa(int(core.GetBlockChain().AddBlockOnChain(cp))) })
-	c.out.Emit("# deliver "+b.label+" (height "+strconv.Itoa(int(b.height))+", "+strconv.Itoa(len(b.tids))+" txs): AddBlockOnChain -> "+res, "bad-op")
-	nh := core.VerifC05Head().Hash
-	if nh != old {
-		na := map[*cblock]bool{}
-		newBranch := c.ancestors(nh)
-		for _, x := range newBranch {
-			na[x] = true
-		}
-		// removed blocks, top-down
-		for _, x := range c.ancestors(old) {
-			if na[x] {
-				break
-			}
-			c.out.Emit("unmark "+idList(x.tids)+" "+idList(x.eids), "ok")
-		}
-		oa := map[*cblock]bool{}
-		for _, x := range c.ancestors(old) {
-			oa[x] = true
-		}
-		// added blocks, bottom-up
-		var added []*cblock
-		for _, x := range newBranch {
-			if oa[x] {
-				break
-			}
-			added = append(added, x)
-		}
-		for i := len(added) - 1; i >= 0; i-- {
-			x := added[i]
-			c.out.Emit("mark "+idList(x.tids)+" "+idList(x.tids)+" "+idList(x.eids), "ok")
-		}
-	}
+	c.out.Emit(op, res)
+	c.results[res]++
 	c.observe()
 }
 
@@ -244,9 +229,10 @@ func runChain(a map[string]string, _ service.TransactionPool) {
 	w.txs = map[int]*types.Transaction{}
 	w.ids = map[*types.Transaction]int{}
 	w.next = 1
-	c := &chainRun{w: w, out: out, r: r, sdb: middleware.VerifC05BuilderStateDB(), byHash: map[common.Hash]*cblock{}, txByH: map[common.Hash]int{}}
+	c := &chainRun{w: w, out: out, r: r, sdb: middleware.VerifC05BuilderStateDB(), byHash: map[common.Hash]*cblock{}, txByH: map[common.Hash]int{}, results: map[string]int{}}
 	out.Emit("cfg 1 1 1 1 0", "ok")
 	g := core.VerifC05Head()
+	out.Emit("genesis "+hx.Hex(g.Hash.Bytes()), "ok")
 	gb := core.GetBlockChain().QueryBlockByHash(g.Hash)
 	genesis := &cblock{label: "b0", block: gb}
 	c.byHash[g.Hash] = genesis
@@ -333,11 +319,29 @@ func runChain(a map[string]string, _ service.TransactionPool) {
 		}
 		c2 := c.build(c1, 1, ids)
 		c.deliver(c2)
+		// fork choice without transactions: lighter fork (refused), parent unknown (parked), equal weight decided by
+		// prove value in both directions and by block hash on equal prove values
+		head := c.byHash[core.VerifC05Head().Hash]
+		if head != nil && head.parent != nil {
+			par := head.parent
+			c.deliver(c.build(par, 0, nil))                 // lighter than the head: 2
+			orphanParent := c.build(par, 0, nil)            // never delivered
+			c.deliver(c.build(orphanParent, 7, nil))        // parent unknown: 3
+			hq := head.block.Header.TotalQN - par.block.Header.TotalQN
+			c.deliver(c.buildPV(par, hq, head.pv-1, nil))   // same weight, lower prove value: wins (local not greater)
+			head = c.byHash[core.VerifC05Head().Hash]
+			if head != nil && head.parent == par {
+				c.deliver(c.buildPV(par, hq, head.pv+5, nil)) // same weight, higher prove value than local: local keeps? (decided by the code)
+				head = c.byHash[core.VerifC05Head().Hash]
+				c.deliver(c.buildPV(par, hq, head.pv, nil))   // same weight and prove value: block hash decides
+			}
+		}
 		base = c.byHash[core.VerifC05Head().Hash]
 		nextNonce += uint64(n)
 		if base == nil {
 			break
 		}
 	}
+	fmt.Printf("CHAINRES %v\n", c.results)
 	fmt.Println("STATS " + out.StatsJSON())
 }
